@@ -281,7 +281,7 @@ func extractTarGz(tarGzFile, dest string) error {
 			if err := os.MkdirAll(target, 0755); err != nil {
 				return err
 			}
-		case tar.TypeReg:
+		case tar.TypeReg, tar.TypeCont: // a contiguous file is a regular file as far as its name and bytes go
 			if err := os.MkdirAll(filepath.Dir(target), 0755); err != nil {
 				return err
 			}
